@@ -17,8 +17,8 @@ MUTATIONS = [
          old="        h10 = t3 - 2 * t2 + (1/self.trange)",
          new="        h10 = t3 - 2 * t2 + 1"),
     dict(name="hermite_grad_h11", props=["C17"], file=I,
-         old="        h11 = t3 - t2\n\n        return h00 * self.p0 + h10 * self.trange * self.m0 + h01 * self.p1 + h11 * self.trange * self.m1\n\n    def __repr__",
-         new="        h11 = t3 - 2 * t2\n\n        return h00 * self.p0 + h10 * self.trange * self.m0 + h01 * self.p1 + h11 * self.trange * self.m1\n\n    def __repr__"),
+         old="        h11 = t3 - t2\n\n        # h00 = -h01",
+         new="        h11 = t3 - 2 * t2\n\n        # h00 = -h01"),
 ]
 
 # --------------------------------------------------------------------------------------------------
